@@ -6,7 +6,32 @@ import (
 	"math"
 	"strconv"
 	"strings"
+	"unicode"
+	"unicode/utf8"
 )
+
+// caseMapped maps the letters of text to lower or upper case. Text that is
+// valid UTF-8 goes through whole (strings.ToLower / ToUpper); otherwise the
+// runes are mapped one by one and the bytes that are no valid UTF-8 are kept:
+// the strings functions would replace each of them by U+FFFD, which changes
+// the bytes and the length of a stored value
+func caseMapped(text string, whole func(string) string, one func(rune) rune) string {
+	if utf8.ValidString(text) {
+		return whole(text)
+	}
+	ret := make([]byte, 0, len(text))
+	for i := 0; i < len(text); {
+		r, size := utf8.DecodeRuneInString(text[i:])
+		if r == utf8.RuneError && size <= 1 {
+			ret = append(ret, text[i])
+			i++
+			continue
+		}
+		ret = utf8.AppendRune(ret, one(r))
+		i += size
+	}
+	return string(ret)
+}
 
 func funcToLower(kv KVPair, args []Expression, ctx *ExecuteCtx) (any, error) {
 	rarg, err := args[0].Execute(kv, ctx)
@@ -14,7 +39,7 @@ func funcToLower(kv KVPair, args []Expression, ctx *ExecuteCtx) (any, error) {
 		return nil, err
 	}
 	arg := toString(rarg)
-	return strings.ToLower(arg), nil
+	return caseMapped(arg, strings.ToLower, unicode.ToLower), nil
 }
 
 func funcToUpper(kv KVPair, args []Expression, ctx *ExecuteCtx) (any, error) {
@@ -23,7 +48,7 @@ func funcToUpper(kv KVPair, args []Expression, ctx *ExecuteCtx) (any, error) {
 		return nil, err
 	}
 	arg := toString(rarg)
-	return strings.ToUpper(arg), nil
+	return caseMapped(arg, strings.ToUpper, unicode.ToUpper), nil
 }
 
 func funcToInt(kv KVPair, args []Expression, ctx *ExecuteCtx) (any, error) {
